@@ -1,4 +1,4 @@
-\* protocol 1 loop up to 1G (21 doublings), two files, both modes; liveness
+\* protocol 1 loop up to 1G (20 doublings), two files, both modes; liveness
 SPECIFICATION Spec
 CONSTANTS
   Floor = 1024
